@@ -42,7 +42,7 @@ def real_scrypt(password, salt):
 
 def shards(tier):
     return ([{"kind": "table", "i": i, "n": 6} for i in range(6)] + [{"kind": "deep"}, {"kind": "recorded"}, {"kind": "above_horizon"},
-            {"kind": "format"}, {"kind": "ibd"}, {"kind": "ibd_store"}])
+            {"kind": "format"}, {"kind": "ibd"}, {"kind": "ibd_store"}, {"kind": "deep_ibd"}])
 
 
 def candidate(D, S, height, cid, prev=b"\x11" * 32):
@@ -335,6 +335,46 @@ def run_ibd(res, tier, seed):
     res.sample({"bulk_download_alternative_history": top, "head_height_afterwards": cs.head().height})
 
 
+def run_deep_ibd(res, tier, seed):
+    """bulk download AT the last checkpoints: a node whose (fabricated) chain ends one block below a checkpointed height
+    (162,500 / 163,000 = the horizon itself) is served, as answers to its requests, a block for that height with a wrong id and
+    a successor: nothing patched (real table, real horizon); the wrong-id block must not enter the chain state"""
+    from vf import simnet, build as b, deepbase
+    from skepticoin.networking import messages as M
+    env.use_real_pow()
+    simnet.install()
+    cp, _ = pinned()
+    cfg = R.Config(R.REAL_PERIOD, R.REAL_TIMESPAN, real_scrypt)
+    sat = (R.TWO256 - 1).to_bytes(32, "big")
+    for top in (163_000, 162_500, 500 * 200):
+        led, tip, cs = deepbase.make(top - 1, 1_700_000_000, sat, {}, cfg)
+        w = b.World(cfg, uni=led)
+        simnet.CLOCK.now = 1_800_000_000
+        net = simnet.Net()
+        node = net.add("n", "10.0.0.1", cs, 5)
+        node.cm.started_at = -10 ** 9
+        wire = simnet.Wire(net, node)
+        wire.greet()
+        prev = "g"
+        for j in range(2):
+            blk = w.build_block({"label": "f%d" % j, "parent": prev, "miner": 1 + j, "txs": [], "dt": 100}, max_tries=50)
+            if blk is None:
+                raise env.HarnessError("cannot build the forged block")
+            w.accept("f%d" % j, blk)
+            prev = "f%d" % j
+            wire.send(M.DataMessage(M.DATA_BLOCK, b.to_sk_block(blk)), in_response_to=9)
+            wire.deliver()
+        res.evaluations += 2
+        res.nontrivial("deep_ibd:%d" % top)
+        st = node.cm.coinstate
+        wrong = [x.height for x in st.block_by_hash.values() if x.height == top and x.hash().hex() != cp["known_hashes"][str(top)]]
+        if net.escaped:
+            res.fail("ibd", "ibd-exception-escaped", net.escaped[0][1], {"deep_ibd": top})
+        if wrong:
+            res.fail("checkpoint", "wrong-id-block-at-checkpoint-height:bulk-download", "a node at height %d was served, as answers, a block for checkpointed height %d with a wrong id (and a successor): it entered the chain state" % (top - 1, top), {"deep_ibd": top})
+    res.sample({"bulk_download_at_the_last_checkpoints": [163_000, 162_500, 100_000]})
+
+
 def run_ibd_store(res, tier, seed):
     """the same with the real block store and a RESTART: k forged blocks (heights 1..k, k around the size of an inventory
     batch) are served as answers and sit unflushed in the write buffer when a peer relays, unsolicited, a forged block for the
@@ -561,6 +601,9 @@ def run(shard, tier, seed):
             run_format(res, tier, seed)
         elif shard["kind"] == "ibd":
             run_ibd(res, tier, seed)
+        elif shard["kind"] == "deep_ibd":
+            env.import_networking()
+            run_deep_ibd(res, tier, seed)
         elif shard["kind"] == "ibd_store":
             env.import_networking()
             run_ibd_store(res, tier, seed)
@@ -580,6 +623,9 @@ def replay(case):
         run_above_horizon(res, "quick", 1)
     elif "format" in case:
         run_format(res, "quick", 1)
+    elif "deep_ibd" in case:
+        env.import_networking()
+        run_deep_ibd(res, "quick", 1)
     elif "ibd_store" in case:
         env.import_networking()
         run_ibd_store(res, "quick", 1)
